@@ -37,7 +37,11 @@ Tokens == {
   T("uint", "seven", <<"7">>, TRUE, "7"), T("uint", "over32", <<"4294967296">>, TRUE, "4294967296"), T("uint", "neg", <<"-1">>, FALSE, ""),
   T("int8", "max", <<"127">>, TRUE, "127"), T("int8", "over", <<"128">>, FALSE, ""), T("int8", "min", <<"-128">>, TRUE, "-128"),
   T("bool", "true", <<"true">>, TRUE, "true"), T("bool", "false", <<"false">>, TRUE, "false"), T("bool", "yes", <<"yes">>, FALSE, ""),
-  T("float64", "frac", <<"1.5">>, TRUE, "1.5"), T("float64", "exp", <<"1e3">>, TRUE, "1000"), T("float64", "word", <<"abc">>, FALSE, ""),
+  T("float32", "frac", <<"1.5">>, TRUE, "1.5"), T("float32", "max", <<"3.4028235e38">>, TRUE, "3.4028235e+38"), T("float32", "over", <<"1e39">>, FALSE, ""),
+  T("float32", "negover", <<"-7.5e40">>, FALSE, ""), T("float32", "word", <<"abc">>, FALSE, ""),
+  T("uint8", "max", <<"255">>, TRUE, "255"), T("uint8", "over", <<"256">>, FALSE, ""), T("uint8", "neg", <<"-1">>, FALSE, ""),
+  T("int64", "max", <<"9223372036854775807">>, TRUE, "9223372036854775807"), T("int64", "over", <<"9223372036854775808">>, FALSE, ""),
+  T("float64", "frac", <<"1.5">>, TRUE, "1.5"), T("float64", "over", <<"1e400">>, FALSE, ""), T("float64", "exp", <<"1e3">>, TRUE, "1000"), T("float64", "word", <<"abc">>, FALSE, ""),
   T("[]string", "two", <<"x", "y">>, TRUE, "[\"x\",\"y\"]"), T("[]string", "one", <<"x">>, TRUE, "[\"x\"]"),
   T("[]int", "two", <<"1", "2">>, TRUE, "[1,2]"), T("[]int", "bad", <<"1", "x">>, FALSE, ""),
   T("p1.Color", "red", <<"red">>, TRUE, "\"red\""),
